@@ -46,6 +46,11 @@ def generate(unit):
     env = eng.with_ghost(unit, env)
     if any(isinstance(n, (ast.Yield, ast.YieldFrom)) for s_ in stmts for n in ast.walk(s_)):
         env["__yields__"] = VInt(0)
+    # ghost call counters named in the contract (`__calls_<dotted name with _>__`): start at 0, incremented by the engine at each such call
+    import re as _re
+    for spec_text in [e for _, e in unit.ensures_items()] + [i for sp in unit.loops.values() for i in sp.get("inv", [])]:
+        for ck in _re.findall(r"__calls_\w+?__", spec_text if isinstance(spec_text, str) else ""):
+            env.setdefault(ck, VInt(0))
     env["__old__"] = dict(env)
     pc = []
     for label, expr in unit.requires_items():
